@@ -169,18 +169,30 @@ def _core(steps):
 
 
 def _kf_region(steps):
-    """Known finding: a RenameModel onto a model name that an earlier RenameModel/DeleteModel of
-    the same batch has just freed."""
-    if not hx.kf('c03_rename_model_onto_freed_name'):
-        return False
-    freed = []
-    for (k, m, n) in steps:
-        if k == 6:
-            if MODELS[n] in freed:
-                return True
-            freed.append(MODELS[m])
-        elif k == 7:
-            freed.append(MODELS[m])
+    """Known-finding regions. steps: (kind, model index, field index, new-name index)."""
+    if hx.kf('c03_rename_model_onto_freed_name'):
+        # a RenameModel onto a model name that an earlier RenameModel/DeleteModel of the same
+        # batch has just freed
+        freed = []
+        for (k, m, f, n) in steps:
+            if k == 6:
+                if MODELS[n] in freed:
+                    return True
+                freed.append(MODELS[m])
+            elif k == 7:
+                freed.append(MODELS[m])
+    if hx.kf('c03_reused_field_name_deleted'):
+        # RenameField(X -> Y) ... AddField(X) ... DeleteField(X) on one model: the optimiser takes
+        # the delete to be about the renamed field and drops the rename
+        for i, (k1, m1, f1, n1) in enumerate(steps):
+            if k1 != 4:
+                continue
+            for j in range(i + 1, len(steps)):
+                k2, m2, f2, n2 = steps[j]
+                if k2 == 0 and m2 == m1 and FIELDS[n2] == FIELDS[f1]:
+                    for (k3, m3, f3, n3) in steps[j + 1:]:
+                        if k3 == 3 and m3 == m1 and FIELDS[f3] == FIELDS[f1]:
+                            return True
     return False
 
 
@@ -206,7 +218,7 @@ def h_seq2(k1: int, k2: int, m1: int, f1: int, n1: int, m2: int, f2: int, n2: in
     pre: (not flag) or k1 in (0, 5) or k2 in (0, 5)
     pre: hx.in_part(k1, k2)
     pre: not hx.excluded(k1, k2, m1, f1, n1, m2, f2, n2, flag)
-    pre: not _kf_region([(k1, m1, n1), (k2, m2, n2)])
+    pre: not _kf_region([(k1, m1, f1, n1), (k2, m2, f2, n2)])
     post: _
     """
     flag = True if flag else False
@@ -221,7 +233,7 @@ def h_seq3(k1: int, k2: int, k3: int, m1: int, f1: int, n1: int, m2: int, f2: in
     pre: (not flag) or k1 in (0, 5) or k2 in (0, 5) or k3 in (0, 5)
     pre: hx.in_part(k1, k2, k3)
     pre: not hx.excluded(k1, k2, k3, m1, f1, n1, m2, f2, n2, m3, f3, n3, flag)
-    pre: not _kf_region([(k1, m1, n1), (k2, m2, n2), (k3, m3, n3)])
+    pre: not _kf_region([(k1, m1, f1, n1), (k2, m2, f2, n2), (k3, m3, f3, n3)])
     post: _
     """
     flag = True if flag else False
@@ -254,7 +266,7 @@ def h_seq4(k1: int, k2: int, k3: int, k4: int, m: int, c1: int, c2: int, c3: int
     for k, c, ln, ini in ((k1, c1, 31, 7), (k2, c2, 32, 8), (k3, c3, 33, 9), (k4, c4, 34, 10)):
         f, n = hx.pick(FN, c)
         steps.append((k, m, f, n, ln, ini, False))
-    if _kf_region([(s[0], s[1], s[3]) for s in steps]):
+    if _kf_region([(s[0], s[1], s[2], s[3]) for s in steps]):
         return hx.verdict(True, False)
     ok, nt = _core(steps)
     return hx.verdict(ok, nt)
